@@ -215,8 +215,13 @@ func genbankKeywordsParser(gb *GenBank, depth int) pars.Parser {
 }
 
 func genbankSourceParser(gb *GenBank, depth int) pars.Parser {
-	sourceParser := genbankGenericFieldParser("SOURCE", depth)
-	sourceParser = sourceParser.Map(func(result *pars.Result) error {
+	sourceNameParser := genbankFieldNameParser("SOURCE", depth)
+	sourceBodyParser := genbankFieldBodyParser(depth, ' ')
+	sourceParser := pars.Parser(func(state *pars.State, result *pars.Result) error {
+		if err := sourceNameParser(state, pars.Void); err != nil {
+			return err
+		}
+		sourceBodyParser(state, result)
 		gb.Fields.Source.Species = string(result.Token)
 		return nil
 	})
